@@ -89,3 +89,26 @@ def expected_iters(cfg):
         if stop:
             break
     return out
+
+
+def run_main_from(cfg, rng, start_state):
+    """The real main loop (_run_main_sampler) started from an arbitrary tree a burn-in could have
+    produced ("start from non-initial states"): returns (results, data)."""
+    import phyclone.run as prun
+    from phyclone.tree import FSCRPDistribution, TreeJointDistribution
+
+    c = full(cfg)
+    data = chain_data(c)
+    samples = ["S%d" % i for i in range(c["dims"])]
+    tree_dist = TreeJointDistribution(FSCRPDistribution(c["conc_value"]))
+    kernel = prun.setup_kernel(c["outlier_prob"], c["proposal"], rng, tree_dist)
+    samplers = prun.setup_samplers(kernel, c["N"], c["outlier_prob"], c["threshold"], rng, tree_dist)
+    tree = oracle.build(start_state, data)
+    tree.relabel_nodes()
+    timer = VirtualTimer(step=c["clock_step"])
+    with contextlib.redirect_stdout(io.StringIO()):
+        res = prun._run_main_sampler(
+            c["conc_update"], data, c["max_time"], c["iters"], c["n_dp"], c["n_prg"], 100, samplers, samples, c["thin"], timer, tree, tree_dist, 0, rng,
+            c["subtree_prob"],
+        )
+    return res, data
